@@ -46,6 +46,9 @@ func runC09(c *report.Ctx) {
 	c.Clause("5 exit bookkeeping")
 	checkHandleProcessExit(c)
 	checkKillDeadlines(c)
+	checkSignalHandlerOrder(c)
+	checkSupervisorKill(c)
+	checkHandlersSerialised(c)
 }
 
 func checkShutdownTop(c *report.Ctx) {
